@@ -201,16 +201,14 @@ def explore_roots(shard):
 
 def explore_harness(ctx, name, bound, opcodes=False, max_exec=None):
     h = Harness(name)
-    # the default execution and the split into independent subtrees (run in a worker process so
-    # that the parent never starts threads before forking)
+    # the default execution and the cheap (free-switch) prefixes are executed first, serially;
+    # what is left are many independent subtrees of similar size for the workers
     res = ctx.pmap(_first_level, [(name, bound, opcodes)])
-    x_choices, roots, npts, v0 = res[0]
-    # one shard per few roots, handed out dynamically: subtrees below early deviations are by far
-    # the largest, so fine granularity is what balances the 16 workers
-    per = max(1, len(roots) // 400)
+    x_choices, roots, npts, nexec0 = res[0]
+    per = max(1, len(roots) // 600)
     chunks = [roots[i:i + per] for i in range(0, len(roots), per)]
     out = ctx.pmap(explore_roots, [(name, h.spec(), c, bound, opcodes, max_exec) for c in chunks])
-    execs = 1 + sum(o[0] for o in out)
+    execs = nexec0 + sum(o[0] for o in out)
     pts = npts + sum(o[1] for o in out)
     maxpts = max([len(x_choices)] + [o[2] for o in out])
     return execs, pts, maxpts, len(roots)
@@ -221,24 +219,27 @@ def _first_level(shard):
     h = Harness(name)
     part = Partial()
     post_box = {}
+    checked = []
 
     def run(prefix, expect):
         ex, post = h.run(prefix, expect, opcodes)
         post_box["post"] = post
+        v = h.verdict(ex, post)
+        part.outcomes.add(repr((ex.results, ex.deadlock, ex.hang)))
+        if v is not None:
+            part.violation("schedule", {"harness": name, "spec": h.spec(), "schedule": ex.choices,
+                                        "opcodes": opcodes, "preemptions": ex.preemptions()}, v)
+        checked.append(ex)
         return ex
 
-    x, roots = S.first_level(run, bound)
-    v = h.verdict(x, post_box["post"])
-    part.outcomes.add(repr((x.results, x.deadlock, x.hang)))
-    if v is not None:
-        part.violation("schedule", {"harness": name, "spec": h.spec(), "schedule": x.choices,
-                                    "opcodes": opcodes, "preemptions": 0}, v)
-    part.add(1, 0)
+    execs, roots = S.split(run, bound, max(1, bound - 1))
+    x = execs[0]
+    part.add(len(execs), 0)
     # determinism: the same schedule twice gives identical observations
     x2, _ = h.run(x.choices, x.points, opcodes)
     if (x2.results, x2.points) != (x.results, x.points):
         raise S.Divergence("default schedule not reproducible for %s" % name)
-    return part, (x.choices, roots, x.npoints_all, v)
+    return part, (x.choices, roots, sum(e.npoints_all for e in execs), len(execs))
 
 
 def run(ctx, only=None):
@@ -248,22 +249,26 @@ def run(ctx, only=None):
                 "it contains at least one preemption; states = complete executions (distinct "
                 "schedules), transitions = scheduling points passed")
     ctx.assumptions = [
-        "CPython with the GIL: a thread switch can only happen between bytecodes; line granularity "
-        "(quick) approximates this, opcode granularity (thorough, lower bound) is exact for the "
-        "watched files",
+        "CPython with the GIL: a thread switch can only happen between bytecodes; scheduling points "
+        "are line boundaries of the watched files plus lock operations (opcode granularity is not "
+        "used: instruction events are not reproducible under adaptive specialisation)",
         "shared state of a class is only touched by code in permuta/perm_sets/*.py (watched)",
         "the library's lock objects are replaced from outside by cooperative locks"]
     plan = []   # (harness, bound, opcodes)
     two = ["count-vs-count", "list-vs-in", "upto-vs-count", "warm-deep-vs-list",
            "two-queries-each", "own-construction", "finite-class", "mesh"]
     if quick:
-        plan += [(h, 2, False) for h in two[:4]] + [(h, 1, False) for h in two[4:]]
+        plan += [(h, 2, False) for h in two]
         plan += [("three-threads", 1, False)]
     else:
-        plan += [(h, 2, False) for h in two] + [(h, 3, False) for h in two[:1]]
+        plan += [(h, 2, False) for h in two]
+        plan += [(h, 3, False) for h in ("count-vs-count", "finite-class", "mesh", "own-construction")]
         plan += [("three-threads", 2, False), ("three-threads-warm", 1, False),
                  ("four-threads", 1, False)]
-        plan += [(h, 1, True) for h in ("count-vs-count", "upto-vs-count", "own-construction")]
+        # Opcode granularity is implemented (mc/sched.py) but not used: under CPython 3.12's
+        # adaptive specialisation the number of instruction events of one code object changes
+        # between executions (superinstructions), so opcode-level schedules do not replay
+        # deterministically; the exploration would end in a Divergence instead of a verdict.
     if only:
         plan = [p for p in plan if p[0] in only]
     tot_exec = tot_pts = 0
